@@ -387,10 +387,9 @@ class ReplaceMatch(ast.NodeTransformer):
                 value = self.visit(c.pattern.value)
                 # Optional guard
                 if c.guard:
-                    # In Verilog, this could be an 'if' inside the case body or ignored
-                    # depending on your semantics
-                    guard_expr = self.visit(c.guard)
-                    body = [VerilogIf(guard_expr, body, [])]
+                    # A failing guard makes Python try the following cases, a Verilog
+                    # case item can not fall through, so this can not be expressed
+                    raise NotImplementedError('match guards are not supported')
                 cases.append(VerilogCaseItem(value, body))
             else:
                 # Unsupported pattern type — could raise or skip
